@@ -51,9 +51,11 @@ func getBufferedEncoder(opts ...Options) *Encoder {
 		e.s.Buf = make([]byte, 0, n)
 	}
 	e.s.reset(e.s.Buf[:0], nil, opts...)
+	verifGetEncoder(e)
 	return e
 }
 func putBufferedEncoder(e *Encoder) {
+	verifPutEncoder(e)
 	if cap(e.s.availBuffer) > 64<<10 {
 		e.s.availBuffer = nil // avoid pinning arbitrarily large amounts of memory
 	}
@@ -91,14 +93,17 @@ func getStreamingEncoder(w io.Writer, opts ...Options) *Encoder {
 	if _, ok := w.(*bytes.Buffer); ok {
 		e := bytesBufferEncoderPool.Get().(*Encoder)
 		e.s.reset(nil, w, opts...) // buffer taken from bytes.Buffer
+		verifGetEncoder(e)
 		return e
 	} else {
 		e := streamingEncoderPool.Get().(*Encoder)
 		e.s.reset(e.s.Buf[:0], w, opts...) // preserve existing buffer
+		verifGetEncoder(e)
 		return e
 	}
 }
 func putStreamingEncoder(e *Encoder) {
+	verifPutEncoder(e)
 	if cap(e.s.availBuffer) > 64<<10 {
 		e.s.availBuffer = nil // avoid pinning arbitrarily large amounts of memory
 	}
@@ -132,9 +137,11 @@ var (
 func getBufferedDecoder(b []byte, opts ...Options) *Decoder {
 	d := bufferedDecoderPool.Get().(*Decoder)
 	d.s.reset(b, nil, opts...)
+	verifGetDecoder(d)
 	return d
 }
 func putBufferedDecoder(d *Decoder) {
+	verifPutDecoder(d)
 	d.s.buf = nil // avoid pinning the provided buffer
 	bufferedDecoderPool.Put(d)
 }
@@ -143,14 +150,17 @@ func getStreamingDecoder(r io.Reader, opts ...Options) *Decoder {
 	if _, ok := r.(*bytes.Buffer); ok {
 		d := bytesBufferDecoderPool.Get().(*Decoder)
 		d.s.reset(nil, r, opts...) // buffer taken from bytes.Buffer
+		verifGetDecoder(d)
 		return d
 	} else {
 		d := streamingDecoderPool.Get().(*Decoder)
 		d.s.reset(d.s.buf[:0], r, opts...) // preserve existing buffer
+		verifGetDecoder(d)
 		return d
 	}
 }
 func putStreamingDecoder(d *Decoder) {
+	verifPutDecoder(d)
 	if _, ok := d.s.rd.(*bytes.Buffer); ok {
 		d.s.rd, d.s.buf = nil, nil // avoid pinning the provided bytes.Buffer
 		bytesBufferDecoderPool.Put(d)
